@@ -978,3 +978,71 @@ def reflected_and_unary_operators(K, cls, nv):
         K.ensure(f"{label}: a new series", r is not x and not K.same_buffer(rd, K.attr(x, "data")))
     nxs, nxd = state(K, x)
     K.ensure("operand untouched", K.cell_eq(V(K, nxs, nxd, t, c), a))
+
+
+# ------------------------------------------------------------------------------ moving windows
+import irispie.series._moving as MV
+
+
+@contract("C10", targets=["irispie.series._moving:Inlay.moving_window", "irispie.series._moving:Inlay.mov_sum", "irispie.series._moving:Inlay.mov_avg",
+                          "irispie.series._moving:Inlay.mov_prod", "irispie.series._moving:Inlay._get_default_moving_window",
+                          "irispie.series._moving:mov_sum", "irispie.series._moving:mov_avg", "irispie.series._moving:mov_prod",
+                          P + "Series._replace_data", P + "Series.trim"],
+          instances=[(c, n, f, w) for c in CLS[:1] for n in NV for f in ("mov_sum", "mov_avg", "mov_prod") for w in (1, 2, 3)]
+                    + [(CLS[1], 1, "mov_sum", None), (CLS[0], 1, "mov_avg", None), (CLS[0], 1, "mov_sum", 5)],
+          opts={"max_paths": 4000})
+def moving_window_acts_period_by_period(K, cls, nv, fname, w):
+    """mov_f(x, -w)(t) == f(x(t-w+1), ..., x(t)) in every period (missing when any of them is missing, inside,
+    before or after the stored rows - also for series shorter than the window); the default window is one year."""
+    x, xs, xd = mk_series(K, "x", cls, nv)
+    r = K.call(getattr(MV, fname), x, -w) if w is not None else K.call(getattr(MV, fname), x)
+    if w is None:
+        w = 4
+    rs, rd = state(K, r)
+    t, c = generic_cell(K, cls, nv)
+    K.instantiate(t)
+    cells = [V(K, xs, xd, t - j, c) for j in range(w)]
+    nan = K.Or(*[K.cell_is_nan(a) for a in cells])
+    acc = K.cell_val(cells[0])
+    for a in cells[1:]:
+        acc = (acc * K.cell_val(a)) if fname == "mov_prod" else (acc + K.cell_val(a))
+    if fname == "mov_avg":
+        acc = acc / w
+    want = K.cell_ite(nan, lambda: K.nan_cell(), lambda: K.real_cell(acc))
+    K.ensure(f"{fname}(x, -{w})(t) folds the last {w} periods", K.cell_eq(V(K, rs, rd, t, c), want))
+    K.ensure("RI", RI(K, r, nv, cls))
+    nxs, nxd = state(K, x)
+    K.ensure("functional form leaves its input untouched", K.cell_eq(V(K, nxs, nxd, t, c), cells[0]))
+    K.ensure("functional form does not alias its input", (r is not x) and (not K.same_buffer(rd, nxd)))
+    K.method(x, fname, -w)
+    mxs, mxd = state(K, x)
+    K.ensure("method form changes the receiver in place", K.cell_eq(V(K, mxs, mxd, t, c), want))
+
+
+# ------------------------------------------------------------------------------ x(dates): a new series made of the requested periods
+@contract("C10", targets=["irispie.series._indexing:Inlay.__call__", P + "Series._get_data_and_recreate", P + "Series._resolve_dates_and_positions",
+                          P + "Series.set_data", P + "_get_date_positions", P + "Series._create_expanded_data", P + "Series.trim"],
+          instances=[(CLS[0], n, k, v) for n in NV for k in (1, 2, 3) for v in ((None,) if n == 1 else (None, 1))], opts={"max_paths": 6000})
+def recreation_keeps_exactly_the_requested_periods(K, cls, nv, k, variant):
+    """x(dates)[t] == x[t] for the requested periods (in any order, with gaps or repetitions, inside or outside the
+    stored rows) and is missing elsewhere; the result satisfies RI and x is untouched."""
+    x, xs, xd = mk_series(K, "x", cls, nv)
+    old = K.snapshot(xd)
+    lo, hi = ser(K, cls)
+    ds = [K.int(f"d{i}", lo - 10, hi + 20) for i in range(k)]
+    dates = tuple(K.obj(cls, serial=d) for d in ds)
+    r = K.method(x, "__call__", dates) if variant is None else K.method(x, "__call__", dates, variant)
+    rs, rd = state(K, r)
+    out_nv = nv if variant is None else 1
+    t = K.int("t", lo - 30, hi + 60)
+    c = K.int("t_c", 0, out_nv - 1)
+    K.instantiate(t)
+    src_c = c if variant is None else variant
+    want = K.cell_ite(K.Or(*[t == d for d in ds]), lambda: V(K, xs, old, t, src_c), lambda: K.nan_cell())
+    K.ensure("x(dates) has the requested periods and nothing else", K.cell_eq(V(K, rs, rd, t, c), want))
+    K.ensure("number of variants", K.shape(rd)[1] == out_nv)
+    K.ensure("RI", RI(K, r, out_nv))
+    nxs, nxd = state(K, x)
+    c0 = K.int("c0", 0, nv - 1)
+    K.ensure("x is untouched", K.cell_eq(V(K, nxs, nxd, t, c0), V(K, xs, old, t, c0)))
+    K.ensure("the result has its own memory", (r is not x) and (not K.same_buffer(rd, nxd)))
